@@ -545,6 +545,13 @@ func (e *aquaEnv) absurdAnnouncements(r *fw.Rand) []amsg {
 		exp := "any"
 		out = append(out, mk(aquaTx, "Tx_hostile_fields", exp, refrlp.Encode(refrlp.L(tx, tx))))
 	}
+	// well-formed in every respect except that it is larger than the protocol allows
+	{
+		blob := make([]byte, aquaMaxMsgSize)
+		m := mk(aquaNodeData, "NodeData_wellformed_but_oversize", "reject", refrlp.Encode(refrlp.L(refrlp.S(blob))))
+		m.Hex = fmt.Sprintf("(list of one %d-byte zero string)", len(blob))
+		out = append(out, m)
+	}
 	// large but legal node data (one blob just below the size limit)
 	if r.Chance(1, 8) {
 		out = append(out, mk(aquaNodeData, "NodeData_at_size_limit", "accept", refrlp.Encode(refrlp.L(refrlp.S(make([]byte, aquaMaxMsgSize-16))))))
